@@ -901,6 +901,51 @@ func init() {
 					hist(prog)
 				}
 			}
+			// walks over dicts go in the byte order of the keys, whatever the order of insertion
+			{
+				dictN := func(kvs ...any) N {
+					out := []N{}
+					for i := 0; i+1 < len(kvs); i += 2 {
+						out = append(out, N{"key": N{"k": "str", "c": chars(kvs[i].(string)), "q": 1, "pp": false}, "val": kvs[i+1].(N)})
+					}
+					return N{"k": "dict", "kv": out, "pp": false}
+				}
+				builders := [][]N{
+					{asg("u", dictN("b", iv(2), "a", iv(1)))},
+					{asg("u", dictN("k", iv(1), "B", iv(2), "a1", iv(3), "_z", iv(4)))},
+					{asg("u", dictN("ab", iv(1), "a", iv(2), "abc", iv(3), "b", iv(0)))},
+					{asg("u", emptyDict), setAttr("u", "z", iv(1)), setAttr("u", "m", iv(2)), setAttr("u", "a", iv(3))},
+					{asg("u", dictN("x", iv(1))), setAttr("u", "c", arr(iv(1), iv(2))), setAttr("u", "b", dictN("q", iv(1), "p", iv(2)))},
+					{asg("u", dictN("Z", iv(1), "a", iv(2), "9", iv(3), "A", iv(4), "z", iv(5), "0", iv(6)))},
+				}
+				walks := []func() N{
+					func() N { return call("toStr", vr("u")) },
+					func() N { return call("repr", vr("u")) },
+					func() N { return mcall(vr("u"), "keys") },
+					func() N { return mcall(vr("u"), "values") },
+					func() N { return mcall(vr("u"), "items") },
+					func() N { return call("toStr", arr(vr("u"), vr("u"))) },
+					func() N {
+						return N{"k": "tmpl", "q": 3, "pp": false, "parts": []N{{"k": "lit", "c": []string{"x"}}, {"k": "hole", "pct": false, "body": []N{stmt(vr("u"))}}, {"k": "lit", "c": []string{"y"}}}}
+					},
+					func() N { return mcall(mcall(vr("u"), "keys"), "len") },
+					func() N { return call("toStr", mcall(vr("u"), "items")) },
+				}
+				for _, b := range builders {
+					for _, wk := range walks {
+						prog := append([]N{}, b...)
+						prog = append(prog, stmt(wk()))
+						hist(prog)
+					}
+					// every walk in one program, and across programs of one history (the order is a property of the dict, not of the moment)
+					all := []N{}
+					for _, wk := range walks[:5] {
+						all = append(all, wk())
+					}
+					hist(append(append([]N{}, b...), stmt(arr(all...))))
+					hist(append([]N{}, b...), []N{stmt(walks[0]())}, []N{stmt(walks[2]())}, []N{setAttr("u", "aa", iv(7)), stmt(walks[0]())})
+				}
+			}
 			// prototype chains
 			proto := func(v string, e N) N { return setAttr(v, "__proto__", e) }
 			reads := func(v string) N {
